@@ -20,6 +20,7 @@ Directives (one per line, `//@ ` prefix; payload = the following non-directive l
   //@   insert before-stmt|after-stmt|before-text|after-text|body-start|body-end "<anchor>" [#n]   E7; payload: ghost code
   //@   insert-each ... [optional]: every occurrence (identifier anchors match whole words); `optional` tolerates zero occurrences
   //@   rewrite <rule> "<regex>" => "<replacement>" [xN]    E8/E11/E12 (rule named, counted)
+  //@   lift-range "<first stmt>" .. "<stmt after the last>" :: <fn signature>    E9 (statement range lifted to a function)
   //@   lift "<anchor>" [#n] fn <signature text>        E9: body of the block opened after the anchor becomes a fn
   //@   rename <newname>                                item is emitted under another name (struct/fn)
   //@   fields-only                                     struct: keep as is (default) ;
@@ -522,7 +523,7 @@ def weave_extract(ub, ex, rf, repo_root):
         rec['transformations'].append({'rule': 'CONTRACT', 'what': 'body not verified here: seen only through the contract proved in unit %s' % stub_of})
     lifted = None
     for d in ex.directives:
-        if d[0] in ('lift', 'lift-loop'):
+        if d[0] in ('lift', 'lift-loop', 'lift-range'):
             lifted = d
     if lifted is not None:
         code = do_lift(code, lifted, rec)
@@ -549,7 +550,7 @@ def weave_extract(ub, ex, rf, repo_root):
       di += 1
       try:
         name, args, payload, tline, raw = d
-        if name in ('lift', 'lift-loop'):
+        if name in ('lift', 'lift-loop', 'lift-range'):
             continue
         if name == 'result':
             result_name = args[0]
@@ -1095,6 +1096,28 @@ def do_lift(code, d, rec):
     else:
         sig = raw[raw.index(' fn ') + 1:]
     m = mask(code)
+    if name == 'lift-range':
+        # E9 (range form): the statements from the one starting with <anchor> up to (not including) the first later statement
+        # starting with <end anchor> become the body of a function
+        if '..' not in rest:
+            raise WeaveError('lift-range needs "<first statement>" .. "<statement after the last>"')
+        end_anchor = rest[rest.index('..') + 1]
+        pos = nth_occurrence(m, anchor, n, 'lift-range first statement')
+        pos2 = m.find(end_anchor, pos + len(anchor))
+        if pos2 < 0:
+            raise WeaveError('lost anchor: lift-range end statement %r after %r' % (end_anchor, anchor))
+        depth = 0
+        for ch in m[pos:pos2]:
+            if ch in '([{':
+                depth += 1
+            elif ch in ')]}':
+                depth -= 1
+                if depth < 0:
+                    raise WeaveError('lost anchor: lift-range %r .. %r does not stay inside one block' % (anchor, end_anchor))
+        if depth != 0:
+            raise WeaveError('lost anchor: lift-range %r .. %r does not end at the nesting level it starts at' % (anchor, end_anchor))
+        rec['transformations'].append({'rule': 'E9', 'what': 'statements from %r up to (not including) %r lifted to `%s`' % (anchor, end_anchor, sig)})
+        return sig + ' {\n' + code[pos:pos2] + '\n}'
     pos = nth_occurrence(m, anchor, n, 'lift anchor')
     b = m.find('{', pos + len(anchor) - 1) if not anchor.rstrip().endswith('{') else pos + len(anchor.rstrip()) - 1
     e = match_close(m, b)
